@@ -40,6 +40,8 @@ def ulps(a, b):
 class Prop(BaseProp):
     replay_whole = True
     coq_targets = ['ND/Proofs/C06_proofs.vo']
+    extra_model_targets = ['gen/Gen_Field.vo']
+    extra_imports = 'From NDgen Require Import Gen_Field.'
     n_quick, n_thorough = 600, 12000
 
     def cases(self, rng, n):
@@ -48,6 +50,35 @@ class Prop(BaseProp):
         out = []
         k = 0
         ops = UNARY + BIN + PRED + ['powi', 'powf']
+
+        def triple(ty, op, a, aux):
+            a2 = [with_re(genvals.gen_value(rng, ty, genvals.leaf_rand), x, ty) for x in a]
+            base = 'c%d' % len(out)
+            out.append(Case(base, ty, op, a, aux, tag='A'))
+            out.append(Case(base + 'b', ty, op, a2, aux, tag='B'))
+            fl = []
+            for x in a:
+                t, v = ty, x
+                while not t.is_float:
+                    v, t = v[0], t.inner
+                fl.append(v)
+            out.append(Case(base + 'f', F, op, fl, aux, tag='F'))
+        # ordering comparisons, min, max and clamp on the four field-compatible types: ties, signed zeros and ordinary values
+        T = vlib.types()
+        ORD = ['po_lt', 'po_le', 'po_gt', 'po_ge', 'po_cmp_less', 'po_cmp_equal', 'po_cmp_greater', 'po_cmp_none', 'rf_max', 'rf_min', 'rf_clamp']
+        for tn in ('Dual64', 'Dual2_64', 'DualSVec64_2', 'DualDVec64:3', 'Dual2SVec64_2', 'Dual2DVec64:3'):
+            ty = T[tn]
+            for op in ORD:
+                for rep in range(2 if self.tier == 'quick' else 6):
+                    nargs = vlib.OPS[op][2]
+                    pool = [0.0, -0.0, 1.0, -1.0, 2.5, -3.0] + ([float('nan')] if op.startswith('po_') else [])
+                    res = [rng.choice(pool) for _ in range(nargs)]
+                    if rep == 0:
+                        res = [res[0]] * nargs                     # a tie
+                    if op == 'rf_clamp':
+                        res = [res[0]] + sorted(res[1:])           # min <= max
+                    a = [genvals.gen_value(rng, ty, genvals.leaf_rand, re_leaf=lambda r, v=v: v) for v in res]
+                    triple(ty, op, a, [])
         while len(out) < n:
             ty = tys[k % len(tys)]
             op = ops[(k // len(tys)) % len(ops)] if k < len(tys) * len(ops) else rng.choice(ops)
@@ -69,18 +100,14 @@ class Prop(BaseProp):
                 aux = [vlib.f2b(rng.choice([0.0, 1.0, 2.0, 2.5, -1.5, 3.0, 0.5]))]
             nargs = vlib.OPS[op][2]
             a = [genvals.gen_value(rng, ty, genvals.leaf_rand, re_leaf=re_leaf) for _ in range(nargs)]
-            a2 = [with_re(genvals.gen_value(rng, ty, genvals.leaf_rand), x, ty) for x in a]
-            base = 'c%d' % len(out)
-            out.append(Case(base, ty, op, a, aux, tag='A'))
-            out.append(Case(base + 'b', ty, op, a2, aux, tag='B'))
-            fl = []
-            for x in a:
-                t, v = ty, x
-                while not t.is_float:
-                    v, t = v[0], t.inner
-                fl.append(v)
-            out.append(Case(base + 'f', F, op, fl, aux, tag='F'))
+            triple(ty, op, a, aux)
         return out
+
+    def model_applicable(self, case):
+        # the comparison / selection methods of the field-compatible types have no plain-float counterpart in the generated model
+        if case.ty.is_float and case.op.startswith(('po_', 'rf_')):
+            return False
+        return BaseProp.model_applicable(self, case)
 
     def re_of(self, case, res):
         kind = vlib.OPS[case.op][1]
@@ -125,5 +152,5 @@ class Prop(BaseProp):
 
     def rule_text(self):
         return ('triples per (type, operation): operands A, operands B with the same real parts and independent derivative parts, and the plain-float '
-                'evaluation; checked: real part / boolean decision of A and B bit-identical, and equal to the float result (bit-identical for forwarded '
+                'evaluation; ordering comparisons (<, <=, >, >=, partial_cmp), max, min, clamp on the field-compatible types at ties, signed zeros and NaN; checked: real part / boolean decision of A and B bit-identical, and equal to the float result (bit-identical for forwarded '
                 'operations, within a few ulps for tan, tanh, /, powers, sph_j*); non-trivial = an A case that does not panic')
